@@ -1,0 +1,57 @@
+//! Verification hooks. Only compiled with `--cfg virtio_drivers_verif`; add-only.
+//!
+//! An observer callback is told about every device-visible store the virtqueue code performs (so a
+//! harness can inspect queue memory between two stores) and about every iteration of a busy-wait
+//! loop (so a single-threaded co-simulation can run the device from inside the wait). Thin public
+//! wrappers expose a few private pure functions for direct comparison with their formal model.
+
+use core::sync::atomic::{AtomicUsize, Ordering};
+
+/// What the observer is told.
+#[derive(Clone, Copy, Debug, Eq, PartialEq)]
+pub enum Event {
+    /// A device-visible store has just been performed.
+    ///
+    /// `what`: 0 = descriptor `index` copied to the table, 1 = available ring slot `index` := `value`,
+    /// 2 = available index := `value`, 3 = available flags := `value`, 4 = used_event := `value`,
+    /// 5 = `next` link of descriptor `index` := `value` during queue creation.
+    Store {
+        /// Kind of location.
+        what: u8,
+        /// Index of the descriptor or slot.
+        index: u32,
+        /// The value stored (where it is a scalar).
+        value: u64,
+    },
+    /// A memory fence has just been executed.
+    Fence,
+    /// One iteration of the busy-wait loop at the given site.
+    Spin(u8),
+}
+
+static OBSERVER: AtomicUsize = AtomicUsize::new(0);
+
+/// Installs (or removes) the observer.
+pub fn set_observer(f: Option<fn(Event)>) {
+    OBSERVER.store(f.map(|f| f as usize).unwrap_or(0), Ordering::SeqCst);
+}
+
+/// Reports an event to the observer, if any.
+pub fn emit(e: Event) {
+    let p = OBSERVER.load(Ordering::SeqCst);
+    if p != 0 {
+        // SAFETY: the only non-zero values ever stored are `fn(Event)` pointers.
+        let f: fn(Event) = unsafe { core::mem::transmute::<usize, fn(Event)>(p) };
+        f(e);
+    }
+}
+
+/// `crate::align_up`.
+pub fn align_up(size: usize) -> usize {
+    crate::align_up(size)
+}
+
+/// `crate::pages`.
+pub fn pages(size: usize) -> usize {
+    crate::pages(size)
+}
